@@ -11,9 +11,9 @@ from .. import data as D
 from .. import meta as M
 from ..oracles import decode_ragged_dir, DecodeError, snapshot, snap_diff, snap_digest, leaks
 from ..readme import check_ragged_readme
-from .arrayhist import Viol, lenbucket
+from .arrayhist import Viol, lenbucket, failing_iterable
 
-MUTATING = ('append', 'iterappend', 'truncate', 'delete') + M.META_OPS
+MUTATING = ('append', 'iterappend', 'iterappend_fail', 'truncate', 'delete') + M.META_OPS
 SMALLCAP = {'int8': 127, 'uint8': 255, 'int16': 32767}
 
 
@@ -21,7 +21,7 @@ class RaggedHistory(Engine):
     prop = 'C04'
     oracles = ('model', 'fresh', 'reject', 'indextype')
     weights = dict(append=22, iterappend=12, truncate=14, mode=4, reopen=10, append_bad=6,
-                   truncate_bad=5, getbad=4, iter=8, meta=0)
+                   truncate_bad=5, getbad=4, iter=8, meta=0, iterappend_fail=4)
     quick_runs = 3000
     thorough_runs = 80000
     batch = 30
@@ -75,9 +75,13 @@ class RaggedHistory(Engine):
         if k == 'iterappend':
             return {'op': 'iterappend', 'items': [self.gen_item(rng) for _ in range(rng.choice([0, 1, 2, 3, 4]))],
                     'as': rng.choice(['list', 'generator'])}
+        if k == 'iterappend_fail':
+            n = rng.choice([1, 2, 3])
+            return {'op': 'iterappend_fail', 'items': [self.gen_item(rng) for _ in range(n)], 'pos': rng.randint(0, n),
+                    'how': rng.choice(['raise', 'badshape', 'unconvertible'])}
         if k == 'append_bad':
             return {'op': 'append', 'item': dict(self.gen_item(rng), rows=rng.choice([1, 2]), form='ndarray'),
-                    'bad': rng.choice(['shape', 'rank+', 'rank-', 'unconvertible'])}
+                    'bad': rng.choice(['shape', 'rank+', 'rank-', 'unconvertible', 'overflow'])}
         if k == 'truncate':
             return {'op': 'truncate', 'index': rng.choice([0, 0, 1, 2, 3, 5, -1, -1, -2, -3, 7, 30]),
                     'by': rng.choice(['handle', 'handle', 'path', 'strpath'])}
@@ -377,11 +381,21 @@ class _RState:
         return cap is None or self.nvalues() + extra <= cap
 
     def do_append(self, op):
-        if 'bad' in op:
+        overflow = False
+        if op.get('bad') == 'overflow':
+            cap = SMALLCAP.get(self.indextype)
+            if cap is None:
+                obj = np.zeros((1,) + self.atom, dtype=self.dtype)     # nothing can overflow: an ordinary append
+            else:
+                # one value more than the index type can address: must be refused, nothing may change
+                obj = np.zeros((cap - self.nvalues() + 1,) + self.atom, dtype=self.dtype)
+                overflow = True
+                self.probe('append_beyond_index_type_range')
+        elif 'bad' in op:
             obj = self.bad_item(op)
         else:
             obj, _ = D.build(op['item'], trail=self.atom, target_dtype=self.dtype)
-        exp = self.model_item(obj)
+        exp = None if overflow else self.model_item(obj)
         if exp is not None and not self.capacity_ok(exp.shape[0]):
             self.log('append', 'skipped_index_capacity')
             return
@@ -435,6 +449,41 @@ class _RState:
         if len(self.L) > 6:
             self.probe('ragged_len_gt_6')
         self.log('iterappend', 'ok', {'n': len(objs)})
+        self.after_step(op)
+
+    def do_iterappend_fail(self, op):
+        objs, exps = [], []
+        for d in op['items']:
+            obj, _ = D.build(d, trail=self.atom, target_dtype=self.dtype)
+            e = self.model_item(obj)
+            if e is None:
+                obj, _ = D.build(dict(d, form='ndarray'), trail=self.atom, target_dtype=self.dtype)
+                e = self.model_item(obj)
+            objs.append(obj)
+            exps.append(e)
+        if not self.capacity_ok(sum(e.shape[0] for e in exps)):
+            self.log('iterappend_fail', 'skipped_index_capacity')
+            return
+        pos = min(op['pos'], len(objs))
+        raise_at = None
+        atom = list(self.atom)
+        if op['how'] == 'raise':
+            raise_at = pos
+        elif op['how'] == 'badshape':
+            tr = (atom[:-1] + [atom[-1] + 1]) if atom else [2]
+            objs = objs[:pos] + [np.zeros([1] + tr, dtype=self.dtype)] + objs[pos:]
+        else:
+            objs = objs[:pos] + [['x', 'y'] if not atom else object()] + objs[pos:]
+        exc = self.call(lambda: self.h.iterappend(failing_iterable(objs, 'generator', raise_at)))
+        if exc is None:
+            raise Viol('model.iterappend_fail', 'no_exception', f'how={op["how"]} pos={pos}')
+        self.L.extend(exps[:pos])
+        self.probe('iterappend_failed_after_%d_items' % min(pos, 2))
+        if pos:
+            self.mutations_ok += 1
+        if len(self.L) > 6:
+            self.probe('ragged_len_gt_6')
+        self.log('iterappend_fail', 'raised', {'pos': pos, 'how': op['how']})
         self.after_step(op)
 
     def do_truncate(self, op):
@@ -563,10 +612,10 @@ class _RState:
             obj = self.bad_item(op) if 'bad' in op else D.build(op['item'], trail=self.atom, target_dtype=self.dtype)[0]
             exp = self.model_item(obj)
             return self.call(lambda: self.h.append(obj)), not (exp is not None and exp.shape[0] == 0)
-        if k == 'iterappend':
+        if k in ('iterappend', 'iterappend_fail'):
             objs = [D.build(d, trail=self.atom, target_dtype=self.dtype)[0] for d in op['items']]
             exps = [self.model_item(o) for o in objs]
-            eff = any(e is None or e.shape[0] > 0 for e in exps)
+            eff = True if k == 'iterappend_fail' else any(e is None or e.shape[0] > 0 for e in exps)
             it = objs if op.get('as', 'list') == 'list' else (o for o in objs)
             return self.call(lambda: self.h.iterappend(it)), eff
         if k == 'truncate':
